@@ -46,8 +46,8 @@ import unit_scaling.functional as U
 # return spec: {"kind": "dot"} (sum(v * g)), {"kind": "cross_entropy"}, {"kind": "mse"}, {"kind": "tuple", "vars": [...]}
 # ---------------------------------------------------------------------------------------------
 
-EW_MAPPED = {"gelu", "gelu_tanh", "gelu_mod", "silu", "softmax", "softmax_pos", "softmax_mod", "dropout0", "dropout_eval", "layer_norm",
-             "layer_norm_mod", "rms_norm"}
+EW_MAPPED = {"gelu", "gelu_tanh", "gelu_mod", "silu", "softmax", "softmax_pos", "softmax_mod", "dropout0", "dropout_eval", "dropout_mod", "layer_norm",
+             "layer_norm_mod", "layer_norm_plain_mod", "rms_norm"}
 EW_UNMAPPED = {"tanh", "relu", "mulc", "neg", "sin"}
 ATTENTION_LIKE = {"softmax", "softmax_pos", "softmax_mod"}
 
@@ -62,7 +62,7 @@ def prog_id(prog: dict) -> str:
 
 def stmt_inputs(st_: dict) -> List[str]:
     op = st_["op"]
-    if op in ("linear", "ulinear", "ew", "shape", "matmul", "conv1d", "intop", "detach", "argmax"):
+    if op in ("linear", "ulinear", "ew", "shape", "matmul", "conv1d", "intop", "detach", "argmax", "seq"):
         return [st_["x"]]
     if op == "sdpa":
         return [st_["q"], st_["k"], st_["v"]]
@@ -145,6 +145,8 @@ def _param_specs(prog: dict) -> List[Tuple[str, str, Any]]:
                 out.append((f"b{i}", "param", (h,)))
         elif op == "matmul":
             out.append((f"w{i}", "param", (h, h)))
+        elif op == "seq":
+            out.append((f"seq{i}", "module", ("Sequential", h, s["bias"])))
         elif op == "conv1d":
             out.append((f"cw{i}", "param", (h, h, 3)))
         elif op == "embedding":
@@ -166,6 +168,10 @@ def _param_specs(prog: dict) -> List[Tuple[str, str, Any]]:
                 out.append((f"gelu{i}", "module", ("GELU", s.get("approximate", "none"))))
             elif s["fn"] == "softmax_mod":
                 out.append((f"sm{i}", "module", ("Softmax",)))
+            elif s["fn"] == "dropout_mod":
+                out.append((f"drop{i}", "module", ("Dropout",)))
+            elif s["fn"] == "layer_norm_plain_mod":
+                out.append((f"lnp{i}", "module", ("LayerNormPlain", h)))
     if prog["ret"]["kind"] == "cross_entropy":
         out.append(("head", "module" if prog["ret"].get("module_head") else "param", ("Linear", h, V, True) if prog["ret"].get("module_head") else (V, h)))
     return out
@@ -227,6 +233,7 @@ def _expr(s: dict, prog: dict) -> List[str]:
             "layer_norm": f"F.layer_norm({x}, ({h},), self.lnw{i}, self.lnb{i})", "layer_norm_mod": f"self.ln{i}({x})",
             "rms_norm": f"F.rms_norm({x}, ({h},), self.rw{i}, 1e-5)",
             "scale_bwd": f"U.scale_bwd({x}, 0.5)", "scale_fwd": f"U.scale_fwd({x}, 1.5)",
+            "dropout_mod": f"self.drop{i}({x})", "layer_norm_plain_mod": f"self.lnp{i}({x})",
         }
         return [f"{o} = {table[fn]}"]
     if op == "add":
@@ -263,6 +270,8 @@ def _expr(s: dict, prog: dict) -> List[str]:
         raise KeyError(k)
     if op == "matmul":
         return [f"{o} = torch.matmul({s['x']}, self.w{i})"]
+    if op == "seq":
+        return [f"{o} = self.seq{i}({s['x']})"]
     if op == "conv1d":
         return [f"{o} = F.conv1d({s['x']}.transpose(1, 2), self.cw{i}, None, 1, 1).transpose(1, 2)"]
     if op == "embedding":
@@ -312,6 +321,12 @@ def render(prog: dict) -> str:
             lines.append(f"        self.{attr} = nn.GELU(approximate={spec[1]!r})")
         elif spec[0] == "Softmax":
             lines.append(f"        self.{attr} = nn.Softmax(dim=-1)")
+        elif spec[0] == "Dropout":
+            lines.append(f"        self.{attr} = nn.Dropout(0.0)")
+        elif spec[0] == "LayerNormPlain":
+            lines.append(f"        self.{attr} = nn.LayerNorm({spec[1]}, elementwise_affine=False)")
+        elif spec[0] == "Sequential":
+            lines.append(f"        self.{attr} = nn.Sequential(nn.Linear({spec[1]}, {spec[1]}, bias={spec[2]}), nn.Tanh(), nn.Linear({spec[1]}, {spec[1]}, bias={spec[2]}))")
     lines.append(f"    def forward(self, {', '.join(forward_args(prog))}):")
     for s in prog["stmts"]:
         for ln in _expr(s, prog):
@@ -423,8 +438,10 @@ class Plain:
             return F.silu(x)
         if fn in ATTENTION_LIKE:
             return F.softmax(x, dim=-1)
-        if fn in ("dropout0", "dropout_eval"):
+        if fn in ("dropout0", "dropout_eval", "dropout_mod"):
             return x
+        if fn == "layer_norm_plain_mod":
+            return F.layer_norm(x, (h,), None, None, 1e-5)
         if fn == "layer_norm":
             return F.layer_norm(x, (h,), P[f"lnw{i}"], P[f"lnb{i}"])
         if fn == "layer_norm_mod":
@@ -513,6 +530,10 @@ class Unit(Plain):
             return U.dropout(x, 0.0)
         if fn == "dropout_eval":
             return U.dropout(x, 0.3, False)
+        if fn == "dropout_mod":
+            return U.dropout(x, 0.0, self.prog.get("_training", True), False)
+        if fn == "layer_norm_plain_mod":
+            return U.layer_norm(x, (h,), None, None, 1e-5)
         if fn == "layer_norm":
             return U.layer_norm(x, (h,), P[f"lnw{i}"], P[f"lnb{i}"])
         if fn == "layer_norm_mod":
@@ -650,6 +671,9 @@ def evaluate(prog: dict, P: Dict[str, torch.Tensor], inputs: Dict[str, torch.Ten
                 raise KeyError(k)
         elif op == "matmul":
             v = mode.matmul(s, env[s["x"]], P[f"w{i}"])
+        elif op == "seq":
+            t = mode.linear(s, env[s["x"]], P[f"seq{i}.0.weight"], P.get(f"seq{i}.0.bias"))
+            v = mode.linear(s, torch.tanh(t), P[f"seq{i}.2.weight"], P.get(f"seq{i}.2.bias"))
         elif op == "conv1d":
             v = mode.conv1d(s, env[s["x"]], P[f"cw{i}"])
         elif op == "embedding":
@@ -743,6 +767,8 @@ class _Builder:
             return self.emit(op="shape", kind=d(st.sampled_from(kinds_)), x=x)
         if k == "matmul":
             return self.emit(op="matmul", x=x, i=self.idx())
+        if k == "seq":
+            return self.emit(op="seq", x=x, i=self.idx(), bias=d(st.booleans()))
         if k == "conv1d":
             return self.emit(op="conv1d", x=x, i=self.idx())
         if k == "intop":
@@ -821,13 +847,13 @@ ALLOW_UNIT = dict(
     linear_spells=["pos", "nobias", "kwbias", "module", "module"],
     mask_spells=["kw"],
     ew=["tanh", "relu", "mulc", "gelu", "gelu_tanh", "gelu_mod", "silu", "softmax", "softmax_pos", "softmax_mod", "dropout0", "dropout_eval",
-        "layer_norm", "layer_norm_mod", "sin"],
+        "layer_norm", "layer_norm_mod", "layer_norm_plain_mod", "dropout_mod", "sin"],
     shape=["flat", "transpose2", "slice_cat", "rotate_half"],
     add_spells=["plus", "plus", "torch.add", "iadd"],
     plain_add=["fork", "param", "x2"],
     extra=[],
 )
-KINDS_UNIT = ["linear", "linear", "ew", "ew", "ew", "sdpa", "shape", "matmul", "conv1d", "scalar_add"]
+KINDS_UNIT = ["linear", "linear", "seq", "ew", "ew", "ew", "sdpa", "shape", "matmul", "conv1d", "scalar_add"]
 
 
 @st.composite
@@ -883,7 +909,7 @@ ALLOW_QUANT = dict(
     plain_add=["fork", "param", "x2"],
     extra=["usdpa"],
 )
-KINDS_QUANT = ["linear", "linear", "linear", "ulinear", "sdpa", "sdpa", "ew", "ew", "shape"]
+KINDS_QUANT = ["linear", "linear", "linear", "seq", "ulinear", "sdpa", "sdpa", "ew", "ew", "shape"]
 
 
 @st.composite
@@ -953,7 +979,7 @@ def stats(prog: dict) -> Dict[str, int]:
     plan = unit_plan(prog)
     ops = [s["op"] for s in prog["stmts"]]
     return dict(n_ops=len(ops), n_residual=len(plan["residual"]), n_add=sum(o == "add" for o in ops),
-                n_linear=sum(o in ("linear", "ulinear") for o in ops), n_sdpa=sum(o == "sdpa" for o in ops))
+                n_linear=sum(o in ("linear", "ulinear") for o in ops) + 2 * sum(o == "seq" for o in ops), n_sdpa=sum(o == "sdpa" for o in ops))
 
 
 ALLOW_TRACK = dict(
@@ -965,7 +991,7 @@ ALLOW_TRACK = dict(
     plain_add=["fork", "fork", "param", "x2"],
     extra=[],
 )
-KINDS_TRACK = ["linear", "ew", "ew", "shape", "shape", "shape", "sdpa", "matmul", "intop", "scalar_add"]
+KINDS_TRACK = ["linear", "seq", "ew", "ew", "shape", "shape", "shape", "sdpa", "matmul", "intop", "scalar_add"]
 
 
 @st.composite
